@@ -1,1 +1,169 @@
-/-! Property theorems for C14 (see /verif/DESIGN.md). Only property theorems and non-vacuity examples live here. -/
+import Proofs.C14Fields
+import Proofs.C14Machine
+/-!
+# C14 — a reused Interpreter behaves like a fresh one
+
+Two layers.
+
+**Field level** (`GoawkModel.C14Fields`): every field of the Go `interp` struct is classified, and `resetCore`, `resetVars`,
+`ResetRand`, `newInterp`, `setExecuteConfig`, `Execute`, `ExecuteContext` are *the effect lists regenerated from /repo*.
+The theorems hold for every semantics `S` of the rest of the interpreter that satisfies `Sem.Ok` (results depend only on
+observable fields; immutable fields are not written) and for every history — no bound on its length.
+
+**State machine** (`GoawkModel.C14`): a concrete executable interpreter state with per-class components, run against the
+real `interp.Interpreter` by the harness. The same statements, proved without any assumption.
+-/
+namespace GoawkModel.PropsC14
+
+/-! ## Field level -/
+section Fields
+open GoawkModel.C14F GoawkModel.Generated.C14Fields
+
+/-- Every field of `type interp struct` has a class; the table has no stale entries; and per class the regenerated
+reset functions do what the class demands (perRun: restored to the `newInterp` value by `resetCore`; fromConfig:
+definitely assigned by `setExecuteConfig`; vars / rand: restored by `resetVars` / `ResetRand` and untouched by the entry
+code; immutable: untouched by all of them; ctx: assigned by both entry points). -/
+theorem classified :
+    interpFields.all (fun f => (classOf f).isSome) = true ∧
+    classTable.all (fun e => interpFields.contains e.1) = true ∧
+    (classTable.map (·.1)).length = interpFields.length ∧
+    classTable.all classFact = true :=
+  ⟨all_classified, table_current.1, table_current.2, class_facts⟩
+
+/-- the shape of the Go functions the model relies on: no conditional resets, no helper calls inside the resets,
+`setExecuteConfig` writes config-class fields only, reads nothing stale, and calls only the three known helpers;
+the entry points are resetCore → setExecuteConfig → executeAll -/
+theorem gen_matches :
+    ((newInterpEffects ++ resetCoreEffects ++ resetVarsEffects ++ resetRandEffects ++ executeEffects ++
+        executeContextEffects).all (fun e => e.2.2.2) = true ∧
+      resetCoreCalls = [] ∧ resetVarsCalls = [] ∧ resetRandCalls = [] ∧ newInterpCalls = []) ∧
+    (setExecuteConfigEffects.all (fun e => decide (classOf e.1 = some .fromConfig)) = true ∧
+      setExecuteConfigCalls.all (fun m => ["setArrayValue", "setVarByName", "initNativeFuncs"].contains m) = true ∧
+      setExecuteConfigReadsBeforeWrite.all (fun f => decide (classOf f = some .immutable)) = true) ∧
+    (executeCalls = ["resetCore", "setExecuteConfig", "executeAll"] ∧
+      executeContextCalls = ["resetCore", "setExecuteConfig", "executeAll"] ∧
+      execProgramCalls = ["newInterp", "setExecuteConfig", "executeAll"] ∧
+      newCalls = ["newInterp"] ∧ resetVarsPublicCalls = ["resetVars"] ∧
+      execProgramEffects = [] ∧ newEffects = []) :=
+  ⟨resets_unconditional, config_writes_config_only, entry_sequences⟩
+
+variable {Cfg Result : Type}
+
+/-- every state reachable from `New` by any history keeps its immutable fields -/
+theorem reachable_closed (S : Sem Cfg Result) (ok : S.Ok) (h : List (Step Cfg)) :
+    Inv (runHistory S h freshState) :=
+  inv_history S ok h freshState inv_fresh
+
+/-- **Reuse = fresh.** After any history, ResetVars + ResetRand, then Execute (or ExecuteContext) gives the result of the
+same call on a newly created interpreter. -/
+theorem reuse_eq_fresh_fields (S : Sem Cfg Result) (ok : S.Ok) (h : List (Step Cfg)) (e : Entry) (cfg : Cfg) :
+    (exec S e cfg (applyEffects resetRandEffects (applyEffects resetVarsEffects (runHistory S h freshState)))).2 =
+      (exec S e cfg freshState).2 := by
+  apply ok.run_obs
+  have hv := reset_vars_rand (runHistory S h freshState)
+  exact preRun_obsEq S e cfg _ _ hv.1 hv.2 (reset_immutable _ (reachable_closed S ok h))
+
+/-- … and of `interp.ExecProgram` -/
+theorem reuse_eq_execProgram_fields (S : Sem Cfg Result) (ok : S.Ok) (h : List (Step Cfg)) (cfg : Cfg) :
+    (exec S .plain cfg (applyEffects resetRandEffects (applyEffects resetVarsEffects (runHistory S h freshState)))).2 =
+      (execProgram S cfg).2 := by
+  rw [execProgram_eq_new_execute S ok cfg]
+  exact reuse_eq_fresh_fields S ok h .plain cfg
+
+/-- **Without the resets only variables and the generator carry over**: the result is that of a fresh interpreter into
+which just the variable-class and generator-class fields were copied. -/
+theorem without_reset_fields (S : Sem Cfg Result) (ok : S.Ok) (h : List (Step Cfg)) (e : Entry) (cfg : Cfg) :
+    (exec S e cfg (runHistory S h freshState)).2 = (exec S e cfg (carryOnly (runHistory S h freshState))).2 := by
+  apply ok.run_obs
+  apply preRun_obsEq
+  · intro f hc; simp [carryOnly, hc]
+  · intro f hc; simp [carryOnly, hc]
+  · intro f hc
+    have := reachable_closed S ok h f hc
+    simp [carryOnly, hc, this]
+
+/-- Non-vacuity: a semantics whose result is the whole observable state (so any leak would show), and which dirties
+every field it may, satisfies the assumptions. -/
+def probeSem : Sem Unit (List Tok) where
+  cfgVal := fun _ f => ("cfg", f)
+  cfgVars := fun _ _ t => t
+  run := fun _ s =>
+    (fun f => if classOf f = some .immutable then s f else ("dirty", f),
+     (classTable.filter (fun e => observable e.2.1 && e.2.1 != .ctx)).map (fun e => s e.1))
+
+example : ∃ s₁ s₂ : FState, (probeSem.run () s₁).2 ≠ (probeSem.run () s₂).2 :=
+  ⟨fun _ => ("a", ""), fun _ => ("b", ""), by decide⟩
+
+set_option maxRecDepth 100000 in
+theorem table_functional : classTable.all (fun e => decide (classOf e.1 = some e.2.1)) = true := by decide
+
+/-- the assumptions of the field-level theorems are satisfiable by this leak-revealing semantics -/
+theorem probeSem_ok : probeSem.Ok where
+  run_obs := by
+    intro _ s₁ s₂ h
+    show List.map _ _ = List.map _ _
+    apply List.map_congr_left
+    intro e he
+    have hmem := (List.mem_filter.mp he).1
+    have hobs := (List.mem_filter.mp he).2
+    have hc : classOf e.1 = some e.2.1 := by
+      simpa using List.all_eq_true.mp table_functional e hmem
+    apply h e.1 e.2.1 hc
+    left
+    simp at hobs
+    exact hobs.1
+  run_immutable := by
+    intro _ s f hc
+    simp [probeSem, hc]
+
+end Fields
+
+/-! ## State machine -/
+section Machine
+open GoawkModel.C14
+
+/-- **Reuse = fresh**, for every history of Execute / ExecuteContext / ResetVars / ResetRand calls (runs ending
+normally, by exit, by a run-time error, by cancellation, or rejected by setExecuteConfig) and every probe configuration. -/
+theorem reuse_eq_fresh (h : List Call) (cfg : Cfg) :
+    (execute cfg (resetRand (resetVars (runHistory h fresh)))).2 = execFresh cfg := by
+  have hk := runHistory_cacheOk h fresh fresh_cacheOk
+  have h1 := (execute_rel cfg (resetRand (resetVars (runHistory h fresh))) _ ⟨rfl, hk⟩).2
+  have h2 := (execute_rel cfg fresh _ ⟨rfl, fresh_cacheOk⟩).2
+  rw [execFresh, h1, h2]
+  exact executeC_reads cfg _ _ rfl rfl
+
+/-- **Without the resets only variables, arrays and the generator carry over.** -/
+theorem without_reset (h : List Call) (cfg : Cfg) :
+    (execute cfg (runHistory h fresh)).2 = (execute cfg (carryOnly (runHistory h fresh))).2 := by
+  have hk := runHistory_cacheOk h fresh fresh_cacheOk
+  have h1 := (execute_rel cfg (runHistory h fresh) _ ⟨rfl, hk⟩).2
+  have h2 := (execute_rel cfg (carryOnly (runHistory h fresh)) _ ⟨rfl, fresh_cacheOk⟩).2
+  rw [h1, h2]
+  exact executeC_reads cfg _ _ rfl rfl
+
+/-- the regex cache of every reachable state is sound, so a hit returns what a miss would compute -/
+theorem cache_sound (h : List Call) : CacheOk (runHistory h fresh).cache :=
+  runHistory_cacheOk h fresh fresh_cacheOk
+
+/-- Non-vacuity: a history that sets a variable, seeds the generator, assigns NR, exits with status 3 and then aborts
+in END really changes the state; without the resets the variable and the seed are still there for the next run while NR
+and the exit status are not; with the resets nothing is. -/
+def dirtyCfg : Cfg :=
+  ⟨false, false, ["a"], false, none, false, false, [.setG 0 "v", .srand 3, .setNR 9, .exit 3], [], [.err]⟩
+def dirtyHistory : List Call := [.exec dirtyCfg]
+def probeCfg : Cfg := ⟨false, false, [], false, none, false, false, [.probe], [], []⟩
+
+example : (execute dirtyCfg fresh).2.err = .divzero ∧
+    (runHistory dirtyHistory fresh).core.perRun.nr = 9 ∧
+    (runHistory dirtyHistory fresh).core.perRun.exitStatus = 3 ∧
+    (runHistory dirtyHistory fresh).core.vars.g = ["v", "", ""] ∧
+    (runHistory dirtyHistory fresh).core.rand.seed = 3 := by decide
+
+example : (execute probeCfg (runHistory dirtyHistory fresh)).2.status = 0 ∧
+    (execute probeCfg (runHistory dirtyHistory fresh)).1.core.perRun.nr = 0 ∧
+    (execute probeCfg (runHistory dirtyHistory fresh)).1.core.vars.g = ["v", "", ""] ∧
+    (execute probeCfg (resetRand (resetVars (runHistory dirtyHistory fresh)))).1.core.vars.g = ["", "", ""] := by decide
+
+end Machine
+
+end GoawkModel.PropsC14
